@@ -3028,4 +3028,15 @@ theorem sources_intact_run (soft : List OpObj → List XOp → Nat → Bool) :
     obtain ⟨h1, h2⟩ := basic_step soft s hb st
     exact ih _ h1 k v (h2 k v hv)
 
+/-- … and so does the invariant at the end of such a history. -/
+theorem inv_run_of_noLate (soft : List OpObj → List XOp → Nat → Bool) :
+    ∀ (hist : List Step) (s : State), Inv s → NoLate soft s hist = true → Inv (s.run soft hist).1 := by
+  intro hist
+  induction hist with
+  | nil => intro s hs _; exact hs
+  | cons st rest ih =>
+    intro s hs hn
+    simp only [NoLate, Bool.and_eq_true, Bool.not_eq_eq_eq_not, Bool.not_true] at hn
+    exact ih _ (step_inv soft s hs st hn.1).1 hn.2
+
 end Cubed.History
